@@ -572,6 +572,12 @@ func (vc *VC) loadStructAt(st *State, t types.Type, ref Term) Term {
 	var fs []Term
 	for i := 0; i < s.NumFields(); i++ {
 		f := s.Field(i)
+		if f.Name() == "_" {
+			// blank fields cannot be referred to by any Go code (and == ignores
+			// them): they have no heap; every struct value carries the zero value
+			fs = append(fs, vc.zero(f.Type()))
+			continue
+		}
 		h := vc.heap(st, fieldHeapName(t, f.Name()), arraySort(SInt, vc.sortOf(f.Type())))
 		fs = append(fs, sel(h, ref))
 	}
@@ -582,6 +588,9 @@ func (vc *VC) storeStructAt(st *State, t types.Type, ref Term, v Term) {
 	s := t.Underlying().(*types.Struct)
 	for i := 0; i < s.NumFields(); i++ {
 		f := s.Field(i)
+		if f.Name() == "_" {
+			continue // blank field: no heap (see loadStructAt)
+		}
 		name := fieldHeapName(t, f.Name())
 		h := vc.heap(st, name, arraySort(SInt, vc.sortOf(f.Type())))
 		fv := Term{"(" + structSel(t, f.Name(), i) + " " + v.S + ")", vc.sortOf(f.Type())}
